@@ -471,8 +471,10 @@ class C09(Prop):
             for kind in ["logon", "input", "netdead", "hb", "co:p", "co:q"] + ["cmd:" + v for v in verbs]:
                 if rng.chance(density // 2 if kind in ("logon", "input") else density, 100):
                     lines.append("script u%d %s %s" % (u, kind, self.gen_ops(rng, "u%d" % u, nusers, nobjs)))
+        refused = set()
         for k in range(1, nusers + 3):
             if rng.chance(6, 100):
+                refused.add(k)
                 lines.append("script k%d connect %s" % (k, rng.choice(["err", "rej"])))
         for i in range(1, nobjs + 1):
             if rng.chance(75, 100):
@@ -487,6 +489,15 @@ class C09(Prop):
         nconn = 0
         sent = {}
         quiet_next = False
+        aba_done = False
+        user_of = {}                      # client -> ordinal of its user object (the console user is attempt 1)
+        attempt = [1 if console else 0, 0 if (not console or 1 in refused) else 1]
+
+        def note_conn(c):
+            attempt[0] += 1
+            if attempt[0] not in refused:
+                attempt[1] += 1
+                user_of[c] = attempt[1]
         batch = False
         later_open = []
         for _ in range(rng.range(5, 22)):
@@ -502,6 +513,7 @@ class C09(Prop):
             if k == "conn":
                 acts.append("conn:c%d" % nextc)
                 open_c.append(nextc)
+                note_conn(nextc)
                 nextc += 1
                 nconn += 1
             elif k == "send":
@@ -544,6 +556,7 @@ class C09(Prop):
                         acts.append("conn:c%d" % nextc)
                         busy.add(nextc)
                         later_open.append(nextc)
+                        note_conn(nextc)
                         nextc += 1
                         nconn += 1
                     elif k2 == "cin":
@@ -567,6 +580,24 @@ class C09(Prop):
             if rng.chance(35, 100) or not acts:
                 acts.append(rng.weighted([("tick", 12), ("tick:1", 3), ("tick:5", 2), ("tick:1000", 2)]))
             lines.append("step " + " ".join(acts))
+            # directed: a third party frees a record whose own event is still waiting in the batch, with an accept in
+            # between (the allocator hands the freed address to the new record): A's net_dead destructs B
+            if len(open_c) >= 2 and not aba_done and not quiet_next and rng.chance(12, 100):
+                aba_done = True
+                batch = True
+                a, b = rng.choice(open_c), None
+                b = rng.choice([c for c in open_c if c != a])
+                if a in user_of and b in user_of:
+                    lines.append("script u%d netdead dest:u%d%s" % (user_of[a], user_of[b], rng.choice(["", ";err", ";co:1:p"])))
+                mid = ["conn:c%d" % nextc] + (["send:c%d:%s" % (c, self.gen_text(rng, verbs)) for c in open_c if c not in (a, b)][:1])
+                rng.shuffle(mid)
+                lines.append("step %s:c%d %s %s:c%d" % (rng.choice(["close", "reset"]), a, " ".join(mid),
+                                                        rng.weighted([("reset", 3), ("close", 1)]), b))
+                open_c = [c for c in open_c if c not in (a, b)] + [nextc]
+                note_conn(nextc)
+                nextc += 1
+                nconn += 1
+                lines.append("step " + rng.weighted([("idle", 3), ("tick", 2)]))
         # settle: one buffered line is served per user and cycle, so drain the longest backlog before the closing ticks
         drain = ["step idle"] * max(0, max(list(sent.values()) + [0]) - 3)
         # batches run on the build without sanitizers as well (address reuse of freed connection records)
